@@ -87,6 +87,41 @@ def answerCore (line impl : String) : String × String :=
        | _ => ("badop", "-"))
     | _, _ => ("badop", "-")
 
+/-- steps of a `via` prefix: `u<MV>` (make in place and take back) and `m<MV>` (`Board::make_move`) -/
+def parseSteps (t : String) : Option (List (Bool × Impl.Move)) :=
+  (t.splitOn ",").mapM fun part =>
+    match part.toList with
+    | 'u' :: rest => (parseMove (String.ofList rest)).map fun m => (false, m)
+    | 'm' :: rest => (parseMove (String.ofList rest)).map fun m => (true, m)
+    | _ => none
+
+/-- run the `m` steps on the model (the `u` steps leave the board as it was: `C04.undo_restores_semilegal`,
+`C04.undo_null`); `none` + verdict at the first step that is not a legal move -/
+def runSteps (impl : String) : List (Bool × Impl.Move) → Impl.Board → Except (String × String) Impl.Board
+  | [], b => .ok b
+  | (false, _) :: rest, b => runSteps impl rest b
+  | (true, m) :: rest, b =>
+    let na : String × String :=
+      ("n/a", match specPos? b.r, absMove m with
+              | some p, some sm =>
+                if (Spec.legalMoves p).contains sm then bad "a legal move of the rules was refused" else expect "n/a" impl
+              | _, _ => expect "n/a" impl)
+    if !m.isWellFormed then .error na else
+    match Impl.makeMoveChecked b m with
+    | .ok b' => runSteps impl rest b'
+    | _ => .error na
+
+def answerVia (steps : List (Bool × Impl.Move)) (op : String) (args : List String) (impl : String) : String × String :=
+  match parseRaw args with
+  | some (raw, rest) =>
+    (match implBoard? raw with
+     | none => answerCore (String.intercalate " " (op :: args)) impl
+     | some b =>
+       match runSteps impl steps b with
+       | .ok b' => answerCore (String.intercalate " " (op :: fmtRaw b'.r :: rest)) impl
+       | .error r => r)
+  | none => ("badop", "-")
+
 /-- (model answer, oracle verdict) for one case line, object prefixes included.
 
 `restored MV <case>`: the implementation answers the case on the board OBJECT it gets by making MV on the validated
@@ -98,27 +133,22 @@ answer and the oracle verdict are those of the inner case.
 `reached MV <op> RAW <args>`: the implementation answers on the board object `Board::make_move` returned. In the
 model a legal move leads from a valid board to a valid board whose derived state is the one validation would build
 from its raw contents (`valid_make`, `Valid.shape.cons`), so the inner case is answered for the raw board after the move;
-`n/a` when the move is not well-formed or not legal (oracle: it must then not be a legal move of the rules). -/
+`n/a` when the move is not well-formed or not legal (oracle: it must then not be a legal move of the rules).
+
+`via STEPS <op> RAW <args>`: a sequence of such steps (`u<MV>` = make and take back, `m<MV>` = make), e.g. an un-made
+promotion followed by another move: the question is asked of the board object at the end. -/
 def answer (line impl : String) : String × String :=
   let toks := (line.splitOn " ").filter (· ≠ "")
   match toks with
   | "restored" :: _ :: rest => answerCore (String.intercalate " " rest) impl
   | "reached" :: mv :: op :: args =>
-    (match parseRaw args, parseMove mv with
-     | some (raw, rest), some m =>
-       (match implBoard? raw with
-        | none => answerCore (String.intercalate " " (op :: args)) impl
-        | some b =>
-          let na : String × String :=
-            ("n/a", match specPos? raw, absMove m with
-                    | some p, some sm =>
-                      if (Spec.legalMoves p).contains sm then bad "a legal move of the rules was refused" else expect "n/a" impl
-                    | _, _ => expect "n/a" impl)
-          if !m.isWellFormed then na else
-          match Impl.makeMoveChecked b m with
-          | .ok b' => answerCore (String.intercalate " " (op :: fmtRaw b'.r :: rest)) impl
-          | _ => na)
-     | _, _ => ("badop", "-"))
+    (match parseMove mv with
+     | some m => answerVia [(true, m)] op args impl
+     | none => ("badop", "-"))
+  | "via" :: steps :: op :: args =>
+    (match parseSteps steps with
+     | some st => answerVia st op args impl
+     | none => ("badop", "-"))
   | _ => answerCore line impl
 
 end Owl.Drv
